@@ -27,7 +27,7 @@ STUB = []
 ASSUMPTIONS = ["source and sink occur in the graph", "no negative-cost cycle of positive capacity", "reference SSP (cross-checked by brute force at start-up)"]
 TIERS = {
     "quick": {"runs": 192000, "block": 4000, "budget_s": 75, "hash_seeds": 16},
-    "thorough": {"runs": 2000000, "block": 4000, "budget_s": 900, "hash_seeds": 64},
+    "thorough": {"runs": 40000000, "block": 8000, "budget_s": 900, "hash_seeds": 64},
 }
 SOLVER_ERRORS = (UnboundLocalError, IndexError, KeyError, TypeError, ValueError, ZeroDivisionError, OverflowError, AttributeError,
                  RecursionError, AssertionError, NameError)
